@@ -40,6 +40,8 @@ type CorDef[T any] struct {
 
 	opCh     chan *CorOp[T]
 	resultCh chan T
+	// doneCh is closed when the Cor is done (before opCh/resultCh get closed)
+	doneCh chan struct{}
 
 	effect func()
 }
@@ -55,6 +57,7 @@ func CorNewGenerics[T any](effect func()) *CorDef[T] {
 		effect:    effect,
 		opCh:      make(chan *CorOp[T], 5),
 		resultCh:  make(chan T, 5),
+		doneCh:    make(chan struct{}),
 		isStarted: AtomBool{flag: 0},
 	}
 	return cor
@@ -149,7 +152,15 @@ func (corSelf *CorDef[T]) YieldFrom(target *CorDef[T], in T) T {
 	verifPoint("cor.yieldFrom.sent", corSelf)
 
 	// fmt.Println(corSelf, "Wait for", "result")
-	result, _ = <-corSelf.resultCh
+	select {
+	case result = <-corSelf.resultCh:
+	case <-target.doneCh:
+		// The target is done: take the reply if it was sent before, otherwise give up (zero value)
+		select {
+		case result = <-corSelf.resultCh:
+		default:
+		}
+	}
 	// fmt.Println(corSelf, "Wait for", "result", "done")
 
 	return result
@@ -159,7 +170,11 @@ func (corSelf *CorDef[T]) receive(cor *CorDef[T], in T) {
 	corSelf.doCloseSafe(func() {
 		if corSelf.opCh != nil {
 			// fmt.Println(corSelf, "Wait for", "receive", cor, in)
-			corSelf.opCh <- &CorOp[T]{cor: cor, val: in}
+			select {
+			case corSelf.opCh <- &CorOp[T]{cor: cor, val: in}:
+			case <-corSelf.doneCh:
+				// Done meanwhile: nobody will take the request
+			}
 			// fmt.Println(corSelf, "Wait for", "receive", "done")
 		}
 	})
@@ -196,6 +211,10 @@ func (corSelf *CorDef[T]) close() {
 	verifPoint("cor.close.entry", corSelf)
 	corSelf.isClosed.Set(true)
 	verifPoint("cor.close.flagSet", corSelf)
+	if corSelf.doneCh != nil {
+		// Release senders blocked on a full opCh (they hold closedM) and callers waiting for a reply
+		close(corSelf.doneCh)
+	}
 
 	corSelf.closedM.Lock()
 	if corSelf.resultCh != nil {
